@@ -7,7 +7,7 @@ from . import dispatch as D, convert as CV, contrib as CB
 from .c08 import C_bytes, quantity_kind
 
 LEVEL = "other"
-TECHNIQUE = "folded decision tables: each of the 14 quantity conversions (and the decibel and amplitude wrappers) is interpreted by the FDAI engine on concrete (number, suffix) elements - every suffix spelling the conversion itself lists, every suffix derivable from the SCPI-99 multiplier table for the quantity, in three letter cases, plus foreign texts - and the uom unit type reached (generic argument of Quantity::new) is compared with the unit the multiplier rule assigns (M = milli, MA = mega, MHZ/MOHM exceptions, named units); base unit for bare numbers; element-type rows; the number handed on must be the token's own numeric part; the element type's float conversion obeys C08's delegation rule; multiplier rule for a prefix in front of a named unit"
+TECHNIQUE = "folded decision tables: each of the 14 quantity conversions (and the decibel and amplitude wrappers) is interpreted by the FDAI engine on concrete (number, suffix) elements - every suffix spelling the conversion itself lists, every suffix derivable from the SCPI-99 multiplier table for the quantity, in three letter cases, plus foreign texts - and the uom unit type reached (generic argument of Quantity::new) is compared with the unit the multiplier rule assigns (M = milli, MA = mega, MHZ/MOHM exceptions, named units); base unit for bare numbers; element-type rows; the number handed on must be the token's own numeric part; the element type's float conversion obeys C08's delegation rule; multiplier rule for a prefix in front of a named unit; decibel conversions folded on every dB suffix in three letter cases and on near misses"
 LEVEL_TEXT = "For every suffix text probed the conversion's result is computed from its MIR: a listed suffix must reach exactly one unit in any letter case and that unit must be the one SCPI-99's multiplier rule assigns; every other text must be rejected with -224; non-numeric elements with -104; the numeric part reaches the value conversion unchanged. Amplitude specifiers (PK/PP/RMS, any case) select the variant and are stripped; dB suffixes select the logarithmic form with the right reference unit."
 LEVEL_NOTE = "Not decided: uom's conversion coefficients themselves (trusted); float rounding of the scaled value. Suffixes the crate defines beyond SCPI-99's table are reported only if they contradict the multiplier rule. Trusted: rustc MIR, FDAI models, uom unit type names."
 
